@@ -74,6 +74,16 @@ def main(out):
         ("j := cheaprandn(uint32(norder + 1))", "j := cheaprandn(uint32(norder + 1))\n\t\tif verifOn {\n\t\t\tj = uint32(verifNext() % uint64(norder+1))\n\t\t}", 1),
     ], p)
     put(os.path.join(out, "select.go"), s); repl[p] = os.path.join(out, "select.go")
+    # proc.go: no time-slice preemption while a simulated run is in progress.  With one P, goroutine switches
+    # then happen only where a goroutine blocks, so which of two runnable goroutines runs first no longer
+    # depends on how long the OS happened to deschedule the process (this showed up under heavy machine load).
+    p = os.path.join(rt, "proc.go")
+    s = open(p).read()
+    s = patch(s, [
+        ("\t\t} else if pd.schedwhen+forcePreemptNS <= now {\n\t\t\tpreemptone(pp)\n",
+         "\t\t} else if pd.schedwhen+forcePreemptNS <= now {\n\t\t\tif !verifOn {\n\t\t\t\tpreemptone(pp)\n\t\t\t}\n", 1),
+    ], p)
+    put(os.path.join(out, "proc.go"), s); repl[p] = os.path.join(out, "proc.go")
     put(os.path.join(out, "overlay.json"), json.dumps({"Replace": repl}, indent=1))
 
 if __name__ == "__main__":
